@@ -448,6 +448,34 @@ def resolver_ignores_python_name(rng, ir, inj):
     return f
 
 
+@op
+def shared_resolver_fits_only_one_field(rng, ir, inj):
+    """One callable serves two fields with the same argument names; the argument is always supplied
+    for one of them (default) and optional for the other, where the parameter then needs a default."""
+    from ..gen.schemair import SType
+
+    always, maybe = inj.fresh("ZzAlways"), inj.fresh("ZzMaybe")
+    fa, fm = inj.fresh("zzSharedAlways"), inj.fresh("zzSharedMaybe")
+    ta, tm = SType("object", always), SType("object", maybe)
+    ta.fields = [SField(fa, named("Int"), [SInput("x", named("Int"), 0)])]
+    tm.fields = [SField(fm, named("Int"), [SInput("x", named("Int"))])]
+    # the position of the two types relative to each other is part of the workload
+    pair = [ta, tm]
+    rng.shuffle(pair)
+    for t in pair:
+        ir.add(t)
+    q = ir.types[ir.query]
+    q.fields.append(SField(inj.fresh("zzHolder"), named(always)))
+    q.fields.append(SField(inj.fresh("zzHolder"), named(maybe)))
+
+    def shared(root, ctx, info, x):
+        return 1
+
+    inj.resolvers[(always, fa)] = shared
+    inj.resolvers[(maybe, fm)] = shared
+    return fm
+
+
 @benign
 def permissive_resolvers(rng, ir, inj):
     f = _resolver_field(ir, inj, [SInput("a", named("Int")), SInput("b", nn(named("Int"))), SInput("c", named("Int"), 3)])
